@@ -495,6 +495,8 @@ class Peer:
             return [(b"pong", req)]
         if op == "echo":
             return [(step["cmd"].encode("latin1"), req)]
+        if op == "fields":
+            return [(b"fields", req)]
         if op == "getheaders":
             d = rp.dec_getheaders(req)
             start = d["locators"][0] if d["locators"] else None
@@ -949,6 +951,65 @@ def run_step(sess, cl, peer, step, prop):
             fail("C19", "P3", "envelope_reserialize", "NetworkEnvelope.serialize() of a parsed envelope differs from the strict encoding")
         tr.probe(f"echo_len_class_{min(len(payload).bit_length(), 18)}")
         return
+    if op == "fields":
+        # a record of primitive fields (compact sizes, var-strings, fixed-width LE/BE integers) encoded by the library, carried in an
+        # envelope, echoed by the peer, and decoded field by field from the received payload stream with the library's readers:
+        # the bytes are the protocol's (reference encoder), every value comes back, and the stream is consumed exactly
+        from buidl import helper as bh
+
+        items = step["items"]
+        enc = b""
+        want = b""
+        for it in items:
+            k, v = it[0], it[1]
+            if k == "vi":
+                enc += bh.encode_varint(v)
+                want += tm.compact_size(v)
+            elif k == "vs":
+                b_ = plan_rng(v, "vs").getrandbits(8 * it[2]).to_bytes(it[2], "big") if it[2] else b""
+                enc += bh.encode_varstr(b_)
+                want += tm.compact_size(len(b_)) + b_
+            elif k == "le":
+                enc += bh.int_to_little_endian(v, it[2])
+                want += v.to_bytes(it[2], "little")
+            elif k == "be":
+                enc += bh.int_to_big_endian(v, it[2])
+                want += v.to_bytes(it[2], "big")
+        tr.oracle("P2_fields")
+        if enc != want:
+            fail("C19", "P2", "primitive_field_encoding", f"library encoding of the record {[(i[0], i[1] if i[0] != 'vs' else i[2]) for i in items]} differs from the protocol's byte layout")
+            return
+        cmd = b"fields"
+        node.send(GenericMessage(cmd, enc))
+        while True:
+            env = node.read()
+            if env.command == cmd and env.payload == enc:
+                break
+        st_ = io.BytesIO(env.payload)
+        tr.oracle("P3_fields")
+        for n_, it in enumerate(items):
+            k, v = it[0], it[1]
+            try:
+                if k == "vi":
+                    got, exp = bh.read_varint(st_), v
+                elif k == "vs":
+                    got = bh.read_varstr(st_)
+                    exp = plan_rng(v, "vs").getrandbits(8 * it[2]).to_bytes(it[2], "big") if it[2] else b""
+                elif k == "le":
+                    got, exp = bh.little_endian_to_int(st_.read(it[2])), v
+                else:
+                    got, exp = bh.big_endian_to_int(st_.read(it[2])), v
+            except Exception as e:
+                fail("C19", "P3", "primitive_field_decode_raised", f"decoding field {n_} ({k}) of an echoed record raised {type(e).__name__}: {e}")
+                return
+            if got != exp:
+                fail("C19", "P3", "primitive_field_decode", f"field {n_} ({k}, width class {len(tm.compact_size(v)) if k == 'vi' else it[2]}) of an echoed record decodes to {got if k != 'vs' else len(got)}, sent {exp if k != 'vs' else len(exp)}; earlier fields: {[(i[0]) for i in items[:n_]]}")
+                return
+            if k == "vi":
+                tr.probe(f"varint_width_{len(tm.compact_size(v))}")
+        if st_.read() != b"":
+            fail("C19", "P3", "primitive_field_stream_not_consumed", "bytes left in the payload stream after decoding every field of the record")
+        return
     if op == "send_version":
         f = step["fields"]
         vm = VersionMessage(
@@ -1377,6 +1438,19 @@ def gen_step(ch, op, chain_cfg, tier, enabled, p_fault):
         big = tier == "thorough" or ch.chance(0.15)
         s["plen"] = ch.choice(BOUNDARY_LENS if big else BOUNDARY_LENS[:8]) if ch.chance(0.6) else ch.randrange(0, 600)
         s["pseed"] = ch.randrange(1 << 30)
+    elif op == "fields":
+        s["trigger"] = "fields"
+        items = []
+        for _ in range(ch.randrange(1, 7)):
+            k = ch.choice(["vi", "vi", "vi", "vs", "le", "be"])
+            if k == "vi":
+                items.append(["vi", ch.choice(VARINT_BOUNDARIES) if ch.chance(0.75) else ch.getrandbits(ch.choice([7, 15, 16, 31, 32, 33, 47, 48, 49, 63, 64]))])
+            elif k == "vs":
+                items.append(["vs", ch.randrange(1 << 30), ch.choice([0, 1, 0xFC, 0xFD, 0xFE, 300]) if ch.chance(0.6) else ch.randrange(0, 600)])
+            else:
+                w = ch.choice([1, 2, 4, 8, 32])
+                items.append([k, ch.choice([0, 1, 2 ** (8 * w) - 1, 2 ** (8 * w - 1), ch.getrandbits(8 * w)]), w])
+        s["items"] = items
     elif op == "send_version":
         s["trigger"] = "-"
         ual = ch.choice([0, 1, 27, 0xFC, 0xFD, 0xFE, 300]) if ch.chance(0.7) else ch.randrange(0, 400)
@@ -1477,6 +1551,9 @@ def gen_step(ch, op, chain_cfg, tier, enabled, p_fault):
     return s
 
 
+VARINT_BOUNDARIES = [0, 1, 0xFC, 0xFD, 0xFE, 0xFF, 0x100, 0xFFFE, 0xFFFF, 0x10000, 0x10001, 0xFFFFFFFE, 0xFFFFFFFF, 0x100000000, 0x100000001, 2**40, 2**48 - 1, 2**48, 2**56, 2**63 - 1, 2**63, 2**64 - 2, 2**64 - 1]
+
+
 def gen_chain_cfg(ch, tier, prop):
     nb = ch.randrange(2, 9 if tier == "quick" else 13)
     txs = []
@@ -1509,7 +1586,7 @@ def generate(ch, tier, prop):
         nonce = 2**64
     if prop == "C19":
         ops_pool = [("ping", 3), ("echo", 4), ("send_version", 2), ("getheaders", 2), ("filtered", 2), ("tx_accepted", 1), ("cfilters", 1), ("cfheaders", 1),
-                    ("cfcheckpt", 1), ("getdata_layout", 1), ("block", 1), ("header_edits", 1)]
+                    ("cfcheckpt", 1), ("getdata_layout", 1), ("block", 1), ("header_edits", 1), ("fields", 2)]
     else:
         ops_pool = [("getheaders", 4), ("filtered", 6), ("block", 2), ("ping", 1), ("retarget", 3), ("header_edits", 1)]
     steps = []
@@ -1612,6 +1689,15 @@ def enumerate_plans(tier, prop, seed):
             p = dict(base, steps=[dict(s) for s in base["steps"]])
             p["steps"][si]["fault"] = {"kind": "flip", "k": k, "abs": True, "bit": (k * 5 + seed) % 8}
             yield p
+    # primitive fields: every ordered pair of compact-size boundary values in one record (each value followed by another field)
+    base = {"network": "signet", "clock": {"base": 1700000000}, "nonce": 5 + seed, "frag_seed": 3 + seed, "frag": "mixed", "chain": chain, "steps": []}
+    vb = VARINT_BOUNDARIES if tier == "thorough" else [0, 0xFC, 0xFD, 0xFFFF, 0x10000, 0xFFFFFFFF, 0x100000000, 2**48 - 1, 2**48, 2**64 - 1]
+    for a in vb:
+        for b in vb:
+            yield dict(base, steps=[{"op": "fields", "trigger": "fields", "items": [["vi", a], ["vi", b], ["le", 0xA5A5, 2]]}], enum="fields")
+    for w in (1, 2, 4, 8, 32):
+        for v in (0, 1, 2 ** (8 * w) - 1, 2 ** (8 * w - 1), 0x0102030405060708090A0B0C0D0E0F101112131415161718191A1B1C1D1E1F20 % 2 ** (8 * w)):
+            yield dict(base, steps=[{"op": "fields", "trigger": "fields", "items": [["le", v, w], ["be", v, w], ["vs", 1, 3]]}], enum="fields")
 
 
 def shrink(plan):
